@@ -141,6 +141,8 @@ def harnesses(tier, seed):
         path = ctx.choose(["process", "weaver"], "path")
         norm = ctx.choose([False, True], "normalized")
         x = [off + scl * v for v in g]
+        if path == "process" and ctx.choose([False, True], "descending-x"):
+            x = [-v for v in x]
         for y in yvecs(len(x)):
             for f1 in names:
                 judge(ctx, check_trend, {"x": x, "y": y, "f": f1, "g": None, "normalized": norm, "path": path}, bulk=True,
@@ -171,5 +173,8 @@ def harnesses(tier, seed):
             cands = [list(v) for v in itertools.product(A.VPM, repeat=k) if len(set(v)) > 1]
         for a in cands:
             judge(ctx, check_normalize, {"a": a, "lo": lo, "hi": hi, "path": path}, bulk=True)
+            # same series on a large offset (spread tiny relative to the level) and at a tiny magnitude
+            for off, scl in ((1e6, 1.0), (1.7e9, 1.0), (0.0, 1e-9)):
+                judge(ctx, check_normalize, {"a": [off + scl * v for v in a], "lo": lo, "hi": hi, "path": path}, bulk=True)
 
     return [{"name": "trend", "body": trend_body}, {"name": "shift-scale", "body": ss_body}, {"name": "normalize", "body": norm_body}]
